@@ -92,7 +92,11 @@ type Rec struct {
 	Frames    int
 	Unknown   int
 	StreamErr []string
-	ReadErr   error // terminal read error (io.EOF when the peer closed cleanly)
+	// Foreign lists frames that arrived between a HEADERS / PUSH_PROMISE frame without
+	// END_HEADERS and the end of its CONTINUATION sequence (a connection error for
+	// any real receiver, RFC 7540 section 6.10).
+	Foreign []string
+	ReadErr error // terminal read error (io.EOF when the peer closed cleanly)
 	Done      bool  // reader finished
 
 	Violations []Violation
@@ -348,6 +352,11 @@ func (e *Endpoint) readLoop() {
 		if f.Header().Length > e.advMaxFrame {
 			e.rec.Violations = append(e.rec.Violations, Violation{Kind: "frame-size", Stream: f.Header().StreamID,
 				Detail: fmt.Sprintf("%v frame of %d octets, advertised maximum %d", f.Header().Type, f.Header().Length, e.advMaxFrame)})
+		}
+		if pend != nil {
+			if cf, ok := f.(*http2.ContinuationFrame); !ok || cf.StreamID != pend.stream {
+				e.rec.Foreign = append(e.rec.Foreign, fmt.Sprintf("%v on stream %d inside the header block of stream %d (after %d of its frames)", f.Header().Type, f.Header().StreamID, pend.stream, pend.frames))
+			}
 		}
 		switch f := f.(type) {
 		case *http2.DataFrame:
